@@ -207,4 +207,22 @@ mod proofs {
         let back = UciMove::from_str(&text);
         assert!(back == Ok(mv));
     }
+
+    #[kani::proof]
+    #[kani::unwind(4)]
+    fn fifty_and_terminal() {
+        let w = any_side(1);
+        let b = any_side(1);
+        kani::assume(all(&w) & all(&b) == 0);
+        let turn: u32 = kani::any();
+        kani::assume(turn < 2);
+        let half: u32 = kani::any();
+        kani::assume(half <= 150);
+        let full: u32 = kani::any();
+        kani::assume(full >= 1 && full < 100000);
+        let p = Bitboard { white: bverif::player_state(w, false, false), black: bverif::player_state(b, false, false), turn, en_passant_square_shift: 0, fullmove_clock: full, halfmove_clock: half };
+        let p0 = Bitboard { white: bverif::player_state(w, false, false), black: bverif::player_state(b, false, false), turn, en_passant_square_shift: 0, fullmove_clock: full, halfmove_clock: 0 };
+        let e = everif::evaluate(&p, true);
+        if half >= 100 { assert_eq!(e, 0); } else { assert_eq!(e, everif::evaluate(&p0, true)); }
+    }
 }
